@@ -46,8 +46,11 @@ type frCase struct {
 }
 
 type frFamily struct {
-	Mid     int    `json:"mid"`      // real length of the abstract class "2" (between 2 and Max-1)
-	Over    int64  `json:"over"`     // real value of an oversize length field (> Max)
+	Scale   string `json:"scale"`    // true: the node's MaxPayloadLength; small: MaxPayloadLength configured to small_max for the run
+	Mid     int    `json:"mid"`      // real length of the abstract class "2" (between 2 and Max-1); <= 0: Max + mid
+	OverAdd int64  `json:"over_add"` // oversize length field = Max + over_add (when > 0) ...
+	OverAbs int64  `json:"over_abs"` // ... or this absolute value
+	Over    int64  `json:"-"`
 	Rest    int    `json:"rest"`     // bytes following an oversize header when the model has some (-1: as many as announced)
 	HdrCut  int    `json:"hdr_cut"`  // real offset of "inside the header" (1..47)
 	Inter   string `json:"inter"`    // early | late | spread: real offsets of "inside the payload"
@@ -62,7 +65,23 @@ type frInput struct {
 	Cases     []frCase   `json:"cases"`
 	Families  []frFamily `json:"families"`
 	RandomN   int        `json:"random_streams"`
-	ProbeOnly bool       `json:"probe_only"`
+	SmallMax  uint32     `json:"small_max"`   // the configured maximum of the small-scale phase
+	TrueEvery int        `json:"true_every"`  // true-scale families replay every n-th case (the 8 MB frames are expensive)
+}
+
+// resolve the lengths of a family against the currently configured maximum
+func (f frFamily) resolved() *frFamily {
+	if f.Mid <= 0 {
+		f.Mid = maxPayload() + f.Mid
+	}
+	f.Over = f.OverAbs
+	if f.OverAdd > 0 {
+		f.Over = int64(maxPayload()) + f.OverAdd
+	}
+	if f.Over <= int64(maxPayload()) {
+		f.Over = int64(maxPayload()) + 1
+	}
+	return &f
 }
 
 // ---------------------------------------------------------------- the wire format (reference, from the protocol description)
@@ -674,92 +693,117 @@ func TestVerifFraming(t *testing.T) {
 		}
 	}
 
-	// ---- phase 2 (parallel): every TLC case x family
+	// ---- phase 2 (parallel): every TLC case x family; first at the node's real limit, then with a small configured limit
 	type job struct {
 		ci, fi int
 	}
-	jobs := make(chan job, 256)
-	var wg sync.WaitGroup
-	workers := runtime.GOMAXPROCS(0)
-	if workers > 8 {
-		workers = 8
-	}
-	for w := 0; w < workers; w++ {
-		wg.Add(1)
-		go func() {
-			defer wg.Done()
-			for j := range jobs {
-				c, f := &in.Cases[j.ci], &in.Families[j.fi]
-				if probeViol && f.Over > int64(maxPayload())+16<<20+1 {
-					continue // do not ask a reader already known to over-allocate for gigabytes
-				}
-				rng := verifkit.Rng(int64(j.ci)*1009 + f.Salt)
-				replay := map[string]interface{}{"case": c, "family": f, "case_index": j.ci}
-				var cc *concrete
-				func() {
-					defer func() {
-						if r := recover(); r != nil {
-							report(&frViol{"panic", fmt.Sprintf("WriteMsg panicked: %v", r)}, replay)
+	runPhase := func(scale string) {
+		jobs := make(chan job, 256)
+		var wg sync.WaitGroup
+		workers := runtime.GOMAXPROCS(0)
+		if workers > 8 && scale == "true" {
+			workers = 8
+		}
+		fams := make([]*frFamily, len(in.Families))
+		for i := range in.Families {
+			fams[i] = in.Families[i].resolved()
+		}
+		for w := 0; w < workers; w++ {
+			wg.Add(1)
+			go func() {
+				defer wg.Done()
+				for j := range jobs {
+					c, f := &in.Cases[j.ci], fams[j.fi]
+					if probeViol && f.Over > int64(maxPayload())+16<<20+1 {
+						continue // do not ask a reader already known to over-allocate for gigabytes
+					}
+					rng := verifkit.Rng(int64(j.ci)*1009 + f.Salt)
+					replay := map[string]interface{}{"case": c, "family": f, "case_index": j.ci, "max_payload": maxPayload()}
+					var cc *concrete
+					func() {
+						defer func() {
+							if r := recover(); r != nil {
+								report(&frViol{"panic", fmt.Sprintf("WriteMsg panicked: %v", r)}, replay)
+							}
+						}()
+						if c.Pure {
+							var v *frViol
+							cc, v = concretisePure(c, f, &in, j.ci, rng)
+							if v != nil {
+								if v.kind == "harness" {
+									t.Errorf("harness: %s (case %d)", v.text, j.ci)
+								} else {
+									report(v, replay)
+								}
+								cc = nil
+							}
+						} else {
+							cc = concretiseInjected(c, f, &in, j.ci, rng)
 						}
 					}()
-					if c.Pure {
-						var v *frViol
-						cc, v = concretisePure(c, f, &in, j.ci, rng)
-						if v != nil {
-							if v.kind == "harness" {
-								t.Errorf("harness: %s (case %d)", v.text, j.ci)
-							} else {
-								report(v, replay)
-							}
-							cc = nil
+					if cc == nil {
+						continue
+					}
+					chunkers := []string{f.Chunker}
+					if len(cc.data) <= 1<<15 && f.Chunker != "one" {
+						chunkers = append(chunkers, "one")
+					}
+					for _, ch := range chunkers {
+						v, st := runReader(cc, ch, rng, false)
+						res.Count(fmt.Sprintf("case|%s|%d|%d|%s", scale, j.ci, j.fi, ch))
+						mu.Lock()
+						for _, e := range st.errs {
+							errKinds[classify(e)]++
 						}
-					} else {
-						cc = concretiseInjected(c, f, &in, j.ci, rng)
+						mu.Unlock()
+						if v != nil {
+							replay["chunker"] = ch
+							replay["stream_len"] = len(cc.data)
+							report(v, replay)
+							break
+						}
 					}
-				}()
-				if cc == nil {
-					continue
-				}
-				chunkers := []string{f.Chunker}
-				if len(cc.data) <= 1<<16 && f.Chunker != "one" {
-					chunkers = append(chunkers, "one")
-				}
-				for _, ch := range chunkers {
-					v, st := runReader(cc, ch, rng, false)
-					res.Count(fmt.Sprintf("case|%d|%d|%s", j.ci, j.fi, ch))
-					mu.Lock()
-					for _, e := range st.errs {
-						errKinds[classify(e)]++
-					}
-					mu.Unlock()
-					if v != nil {
-						replay["chunker"] = ch
-						replay["stream_len"] = len(cc.data)
-						report(v, replay)
-						break
+					if j.ci%97 == 0 && j.fi == 0 {
+						res.Sample(map[string]interface{}{"abstract_stream": c.Stream, "pure": c.Pure, "chopped": c.Chopped, "results": c.Out,
+							"real_stream_bytes": len(cc.data), "messages": len(cc.want), "failure": cc.lastKind, "max_payload": maxPayload()})
 					}
 				}
-				if j.ci%97 == 0 && j.fi == 0 {
-					res.Sample(map[string]interface{}{"abstract_stream": c.Stream, "pure": c.Pure, "chopped": c.Chopped, "results": c.Out,
-						"real_stream_bytes": len(cc.data), "messages": len(cc.want), "failure": cc.lastKind})
-				}
-			}
-		}()
-	}
-	if !in.ProbeOnly {
+			}()
+		}
+		every := 1
+		if scale == "true" && in.TrueEvery > 1 {
+			every = in.TrueEvery
+		}
 		for ci := range in.Cases {
 			for fi := range in.Families {
+				c := &in.Cases[ci]
+				always := (c.Pure && len(c.Wlog) == 1 && c.Chopped <= 1) || (!c.Pure && len(c.Stream) <= 2) // the limits themselves
+				if in.Families[fi].Scale != scale || ((ci+fi)%every != 0 && !always) {
+					continue
+				}
 				jobs <- job{ci, fi}
 			}
 		}
+		close(jobs)
+		wg.Wait()
 	}
-	close(jobs)
-	wg.Wait()
+	trueMax := p2pcommon.MaxPayloadLength
+	defer func() { p2pcommon.MaxPayloadLength = trueMax }()
+	runPhase("true")
+	if in.SmallMax > 100 {
+		p2pcommon.MaxPayloadLength = in.SmallMax // "the configured maximum payload": a package variable read by every ReadMsg / WriteMsg
+		runPhase("small")
+	}
 
 	// ---- phase 3: seeded random byte streams against the reference parser
 	{
 		rng := verifkit.Rng(1803)
 		for i := 0; i < in.RandomN; i++ {
+			if i < in.RandomN/8 {
+				p2pcommon.MaxPayloadLength = trueMax
+			} else if in.SmallMax > 100 {
+				p2pcommon.MaxPayloadLength = in.SmallMax
+			}
 			data := randomStream(rng)
 			cc := refParse(data)
 			if probeViol && cc.lastDecl > int64(maxPayload())+16<<20 {
